@@ -1434,6 +1434,10 @@ func main() {
 		fmt.Println("usage: c02 random|partial|ident|scripts ...")
 		os.Exit(3)
 	}
+	if os.Args[1] == "values" { // value classes of measurements (values.go)
+		valuesMain(os.Args[2:])
+		return
+	}
 	fs := flag.NewFlagSet(os.Args[1], flag.ExitOnError)
 	n := fs.Int("n", 200, "")
 	storm := fs.Bool("storm", false, "")
